@@ -138,6 +138,7 @@ func (s *scanner) Next() (lexeme.LexEvent, bool) {
 		c := s.data.Byte(s.index)
 		s.index++
 
+		verifScanStep(s.step, c, int(s.index)-1, int(s.dataSize))
 		s.step(s, c)
 
 		if len(s.finds) != 0 {
